@@ -2,6 +2,6 @@ SPECIFICATION Spec
 CONSTANTS
   CurveNames = {"E8M3", "E8G", "E8Z", "E8C4"}
   Heavy = FALSE
-INVARIANTS WholeGroup Closed Commutes SubUndoes Neutral MulCorners DblNIsMul MulAgrees Assoc
+INVARIANTS WholeGroup Closed Commutes SubUndoes Neutral MulCorners DblNIsMul RelAgrees MulAgrees Assoc
 CONSTRAINT Emit
 CHECK_DEADLOCK FALSE
